@@ -12,7 +12,7 @@ SPEC = {
         "commands are only compared for shapes a real sender produces (argument checks of the client are re-done; checks against the client's cached catalogue are modelled as a fresh cache)",
         "HA policy write-available-first (default): replica groups stay empty, UpdateReplicationCommand is generated but always refused",
         "wall-clock stamps (DeletedAt) are compared as set/unset; OpsMap*, UpdateNodeTmpIndexCommandStart, DataNode.Index, ExpandShardsEnable and the lazily filled MeasurementInfo.ObsOptions are outside the whitelist",
-        "known-finding classes are kept out of the main campaigns by construction / by one masked field each and are shown by replays/C15/*.json",
+        "all defect classes found so far are repaired in /repo: nothing is masked or excluded any more, replays/C15/*.json are regression cases; the answer of UpdateNodeTmpIndexCommand (it depends on the non-persisted DataNode.Index) is exempt from the A/C answer comparison",
     ],
     "campaigns": [
         {"name": "converge", "run": "^TestConverge$", "quick": B(1000, 5), "thorough": B(25000, 9, 3000)},
